@@ -680,6 +680,115 @@ def solver_seam_check(sp, rng, rep, n_points=2, points=None):
     return fails[:3], probes
 
 
+def gen_swap_history(rng):
+    """constraints over a set C of variables; a sequence of objectives, each over C plus ONE further variable that sorts at a
+    different place (before / inside / after C in natural order): the variable count stays the same, the column layout shifts"""
+    import optyx
+    from props import c16 as N
+
+    for _ in range(50):
+        fam = N.name_family(rng)
+        if len(fam) >= 5:
+            break
+    names = rng.sample(fam, min(len(fam), rng.randint(5, 7)))
+    names = sorted(set(names), key=N.natural_key)
+    k = rng.randint(2, len(names) - 2)
+    cset = rng.sample(names, k)
+    extras = [n for n in names if n not in cset]
+    rng.shuffle(extras)
+    var = {n: optyx.Variable(n, lb=-10.0, ub=10.0) for n in names}
+
+    def coef():
+        return rng.choice([1.0, 2.0, 3.0, 5.0, -2.0, 0.5, -1.0, 4.0])
+
+    cons = []
+    for _ in range(rng.randint(1, 3)):
+        vs = rng.sample(cset, rng.randint(1, len(cset)))
+        form = rng.choice(["lin", "lin", "quad", "prod"])
+        if form == "lin":
+            e = sum((coef() * var[n] for n in vs[1:]), coef() * var[vs[0]])
+        elif form == "quad":
+            e = sum((abs(coef()) * var[n] ** 2 for n in vs[1:]), abs(coef()) * var[vs[0]] ** 2) - 50.0
+        else:
+            e = coef() * var[vs[0]] * var[vs[-1]] + coef() * var[vs[0]]
+        rel = "le" if form == "quad" else rng.choice(["le", "ge"])
+        cons.append(do_compare(rel, e, rng.choice([1.0, 4.0, -2.0]) if form != "quad" else 0.0))
+    objs = []
+    for x in extras[:rng.randint(2, 3)]:
+        targets = {n: rng.choice([0.5, -1.0, 2.0, 3.0]) for n in cset + [x]}
+        e = None
+        for n, t in targets.items():
+            term = (var[n] - t) ** 2 * abs(coef())
+            e = term if e is None else e + term
+        objs.append((e, rng.random() < 0.25, sorted(cset + [x], key=N.natural_key)))
+    return {"var": var, "constraints": cons, "objectives": objs, "method": rng.choice(["SLSQP", "SLSQP", "trust-constr"])}
+
+
+def objective_swap_history(rng, rep, hist=None):
+    """after every objective replacement the dicts handed to minimize must be those of the CURRENT variable layout
+    (fun / jac vs dual numbers in natural order), and a reported OPTIMAL must satisfy the constraints"""
+    import optyx
+
+    h = hist or gen_swap_history(rng)
+    S = Ser(with_ids=False)
+    desc = {"objectives": [[S.expr(e if not mx else e), mx, names] for e, mx, names in h["objectives"]],
+            "constraints": [[S.expr(c.expr), c.sense] for c in h["constraints"]], "method": h["method"]}
+    prob = optyx.Problem()
+    fails = []
+    for stage, (e, mx, names) in enumerate(h["objectives"]):
+        (prob.maximize if mx else prob.minimize)(-e if mx else e)
+        if stage == 0:
+            for c in h["constraints"]:
+                prob.subject_to(c)
+        sp = {"problem": prob, "constraints": h["constraints"], "names": names, "method": h["method"]}
+        f1, _p = solver_seam_check(sp, rng, rep, n_points=2)
+        rep.histogram["swap-history-stages"] = rep.histogram.get("swap-history-stages", 0) + 1
+        for f in f1:
+            f.update({"stage": stage, "swap_history": desc})
+            f.pop("problem", None)
+            fails.append(f)
+        if fails:
+            break
+        # a real solve of the same object: OPTIMAL must be feasible and agree with a fresh problem on the same model
+        try:
+            with warnings.catch_warnings(), np.errstate(all="ignore"):
+                warnings.simplefilter("ignore")
+                sol = prob.solve(method="SLSQP")
+                fresh = optyx.Problem()
+                (fresh.maximize if mx else fresh.minimize)(-e if mx else e)
+                for c in h["constraints"]:
+                    fresh.subject_to(c)
+                sol2 = fresh.solve(method="SLSQP")
+        except Exception as ex:  # noqa: BLE001
+            fails.append({"what": "solve raised in an objective-replacement history", "error": f"{type(ex).__name__}: {ex}"[:160],
+                          "stage": stage, "swap_history": desc})
+            break
+        if sol.status.name == "OPTIMAL":
+            worst = max((c.violation(sol.values) for c in h["constraints"]), default=0.0)
+            if worst > 1e-5:
+                fails.append({"what": "OPTIMAL reported for a point that violates a constraint", "violation": worst, "stage": stage,
+                              "values": dict(sol.values), "swap_history": desc})
+                break
+        if sol.status.name != sol2.status.name or (sol.status.name == "OPTIMAL" and
+                                                   not oracle.close(sol.objective_value, sol2.objective_value, 1e-4, 1e-5)):
+            fails.append({"what": "a solve after replacing the objective differs from a fresh problem on the same model", "stage": stage,
+                          "status": [sol.status.name, sol2.status.name], "objective": [sol.objective_value, sol2.objective_value],
+                          "swap_history": desc})
+            break
+    return fails[:2]
+
+
+def rebuild_swap_history(desc):
+    import optyx
+    from optyx.constraints import Constraint
+    from ser import Deser, parse_sexp
+
+    d = Deser()
+    cons = [Constraint(expr=d.expr(parse_sexp(e)[0]), sense=sn) for e, sn in desc["constraints"]]
+    objs = [(d.expr(parse_sexp(e)[0]), mx, names) for e, mx, names in desc["objectives"]]
+    return {"constraints": cons, "objectives": objs, "method": desc["method"]}
+
+
 def run(ctx) -> core.Report:
     rng = ctx["rng"]
     thorough = ctx["tier"] == "thorough" or ctx["escalate"]
@@ -689,7 +798,8 @@ def run(ctx) -> core.Report:
                            "0-d / 1-d / 2-d arrays of every integer, unsigned, float and bool dtype at 0, 1 and the extremes) in both operand "
                            "positions against their mathematical value; then whole problems (vectors of >= 11 elements, digit-bearing names, "
                            "constraints over strict subsets of the variables with unequal partials, linear and nonlinear) whose dicts are "
-                           "captured at the scipy.optimize.minimize seam and checked against dual-number derivatives; non-trivial = distinct (operand pair, relation) cells that "
+                           "captured at the scipy.optimize.minimize seam and checked against dual-number derivatives; histories in which the objective is "
+                           "replaced by one over a different variable set of the same size between solves; non-trivial = distinct (operand pair, relation) cells that "
                            "produce at least one constraint")
     shapes = [(3, 2, 3), (1, 1, 1), (2, 3, 3)] + ([(4, 2, 2), (6, 3, 4), (5, 1, 4)] if thorough else [])
     n_points = 4 if thorough else 2
@@ -853,6 +963,11 @@ def run(ctx) -> core.Report:
     for f in magnitude_family(World(*shapes[0]), rng, rep):
         rep.oracle_failures.append(f)
 
+    # --- histories: solve, replace the objective by one over a DIFFERENT variable set of the SAME size, solve again
+    for _ in range(60 if thorough else 20):
+        for f in objective_swap_history(rng, rep):
+            rep.oracle_failures.append(f)
+
     # --- whole problems through the solver seam: constraints over strict subsets of the problem's variables
     n_prob = 160 if thorough else 45
     for _ in range(n_prob):
@@ -941,6 +1056,10 @@ def search(ctx, rep):
                     lt, rt = lop.kind, rop.kind
                 r_.update({"rel": rel, "left": lt, "right": rt, "point": pt, "shape": [W.n, W.r, W.c]})
                 return r_
+    for _ in range(60):
+        fails = objective_swap_history(rng, dummy)
+        if fails:
+            return fails[0]
     for _ in range(150):
         fails, _p = solver_seam_check(gen_solver_problem(rng), rng, dummy, n_points=2)
         if fails:
@@ -980,6 +1099,11 @@ def search(ctx, rep):
 
 def replay(payload) -> bool:
     f = payload["failure"]
+    if "swap_history" in f:
+        fs = objective_swap_history(core.Rng(0), core.Report(), hist=rebuild_swap_history(f["swap_history"]))
+        for x in fs:
+            print({k: x[k] for k in x if k not in ("swap_history", "point", "variables")})
+        return not fs
     if "problem" in f:
         sp = rebuild_problem(f["problem"])
         pt = {k: float(v) for k, v in f["point"].items()} if "point" in f else None
